@@ -1133,6 +1133,94 @@ fn check_coincide(seed: u64) -> i32 {
     0
 }
 
+/// C20 (totality, checked build): random well-formed systems over ALL model kinds (sporadic, periodic, delta-min curves incl.
+/// plateaus, extrapolating curves, propagated and summed bounds, Never; scalar / multiframe / curve / extrapolating cost
+/// models); every analysis must return Ok or Err -- a panic (overflow check, debug assertion, index, unwrap) is a failure.
+/// ArrivalCurvePrefix is left out of the request bounds: its steps_iter yields 0 (known finding KF1).
+fn check_totality(seed: u64) -> i32 {
+    use response_time_analysis::ros2;
+    let mut r = Rng(seed ^ 0x707a1);
+    fn mk_ab(r: &mut Rng) -> (Box<dyn ArrivalBound>, String) {
+        match r.below(8) {
+            0 => { let t = 1 + r.below(12); (Box::new(Periodic::new(d(t))), format!("Periodic({})", t)) }
+            1 => { let t = 1 + r.below(12); let j = r.below(3 * t); (Box::new(Sporadic::new(d(t), d(j))), format!("Sporadic({},{})", t, j)) }
+            // (delta-min prefixes that end in a plateau are left out: number_arrivals and steps_iter disagree there, known finding KF5)
+            2 => { let a = r.below(4); let b = a + r.below(5); let c = b + 1 + r.below(6); (Box::new(Curve::new(vec![d(a), d(b), d(c)])), format!("Curve[{},{},{}]", a, b, c)) }
+            3 => { let a = 1 + r.below(4); let b = a + r.below(5); let c = b + 1 + r.below(6); (Box::new(arrival::ExtrapolatingCurve::new(Curve::new(vec![d(a), d(b), d(c)]))), format!("ExtrapolatingCurve[{},{},{}]", a, b, c)) }
+            4 => { let t = 1 + r.below(12); let j = r.below(20); (Box::new(Propagated::with_jitter(&Sporadic::new(d(t), d(0)), d(j))), format!("Propagated(Sporadic({},0),{})", t, j)) }
+            5 => { let t = 2 + r.below(9); let t2 = 2 + r.below(9); (Box::new(arrival::sum_of(Periodic::new(d(t)), Sporadic::new(d(t2), d(r.below(5))))), format!("sum_of(Periodic({}),Sporadic({},..))", t, t2)) }
+            6 => (Box::new(arrival::Never {}), "Never".to_string()),
+            _ => { let t = 2 + r.below(9); (Sporadic::new(d(t), d(1)).clone_with_jitter(d(r.below(7))), format!("Sporadic({},1).clone_with_jitter", t)) }
+        }
+    }
+    fn mk_cm(r: &mut Rng) -> (Box<dyn JobCostModel>, String) {
+        match r.below(4) {
+            0 => { let c = 1 + r.below(4); (Box::new(Scalar::new(s(c))), format!("Scalar({})", c)) }
+            1 => { let v: Vec<u64> = (0..1 + r.below(3)).map(|_| 1 + r.below(4)).collect(); (Box::new(wcet::Multiframe::new(v.iter().map(|x| s(*x)).collect())), format!("Multiframe{:?}", v)) }
+            2 => { let a = 1 + r.below(3); let b = a + r.below(3); let c = b + r.below(3); (Box::new(wcet::Curve::new(vec![s(a), s(b), s(c)])), format!("wcet::Curve[{},{},{}]", a, b, c)) }
+            _ => { let a = 1 + r.below(3); let b = a + 1 + r.below(2); let c = b + 1 + r.below(2); (Box::new(wcet::ExtrapolatingCurve::new(wcet::Curve::new(vec![s(a), s(b), s(c)]))), format!("wcet::ExtrapolatingCurve[{},{},{}]", a, b, c)) }
+        }
+    }
+    for _ in 0..1500 {
+        let n = 1 + r.below(3) as usize;
+        let mut descs = vec![]; let mut rbfs: Vec<RBF<Box<dyn ArrivalBound>, Box<dyn JobCostModel>>> = vec![];
+        for _ in 0..n { let (ab, da) = mk_ab(&mut r); let (cm, dc) = mk_cm(&mut r); descs.push(format!("{} x {}", da, dc)); rbfs.push(RBF::new(ab, cm)); }
+        let limit = 1 + r.below(200); let b = r.below(4);
+        let p = 1 + r.below(6); let q = 1 + r.below(p); let dl = q + r.below(p - q + 1);
+        let (sb, _, _, _, sdesc) = supply_case(r.below(5), q, dl, p);
+        let desc = format!("{{\"tasks\": {:?}, \"limit\": {}, \"blocking\": {}, \"supply\": {}}}", descs, limit, b, sdesc);
+        let (tua, rest) = rbfs.split_last().unwrap();
+        macro_rules! total { ($name:expr, $e:expr) => {{
+            if let Err(e) = guarded(|| { let _ = $e; }) { return fail($name, desc.clone(), e, "Ok(..) or Err(..) without panicking".into()); }
+        }}}
+        total!("totality::fp::fully_preemptive", fixed_priority::fully_preemptive::dedicated_uniproc_rta(tua, rest, d(limit)));
+        total!("totality::fp::floating_nonpreemptive", fixed_priority::floating_nonpreemptive::dedicated_uniproc_rta(&fixed_priority::floating_nonpreemptive::TaskUnderAnalysis { rbf: tua, blocking_bound: s(b) }, rest, d(limit)));
+        total!("totality::fifo", fifo::dedicated_uniproc_rta(&demand::Slice::of(&rbfs), d(limit)));
+        let dls: Vec<u64> = (0..n).map(|_| 1 + r.below(40)).collect();
+        let others: Vec<_> = rest.iter().zip(dls.iter()).map(|(rb, dl)| edf::fully_preemptive::Task { rbf: rb, deadline: d(*dl) }).collect();
+        total!("totality::edf::fully_preemptive", edf::fully_preemptive::dedicated_uniproc_rta(&edf::fully_preemptive::Task { rbf: tua, deadline: d(dls[n - 1]) }, &others, d(limit)));
+        let fl: Vec<_> = rest.iter().zip(dls.iter()).map(|(rb, dl)| edf::floating_nonpreemptive::InterferingTask { rbf: rb, deadline: d(*dl), max_np_segment: s(1 + r.below(3)) }).collect();
+        total!("totality::edf::floating_nonpreemptive", edf::floating_nonpreemptive::dedicated_uniproc_rta(&edf::floating_nonpreemptive::TaskUnderAnalysis { rbf: tua, deadline: d(dls[n - 1]) }, &fl, d(limit)));
+        total!("totality::ros2::event_source", ros2::rta_event_source(&*sb, &demand::Slice::of(&rbfs), d(limit)));
+        total!("totality::ros2::timer", ros2::rta_timer(&*sb, tua, &demand::Slice::of(rest), s(b), d(limit)));
+        total!("totality::ros2::polling_point", ros2::rta_polling_point_callback(&*sb, tua, &demand::Slice::of(rest), d(limit)));
+        total!("totality::ros2::chain", ros2::rta_processing_chain(&*sb, tua, &demand::Slice::of(rest), &demand::Slice::of(&rbfs), &demand::Slice::of(&rest[..0]), d(limit)));
+        // the analyses that take (arrival bound, scalar WCET) tasks
+        {
+            // (a task under analysis that never releases a job is left out here: known finding KF18)
+            let (ab0, d0) = loop { let x = mk_ab(&mut r); if x.0.number_arrivals(d(1000)) > 0 { break x; } }; let c0 = 1 + r.below(4); let last = 1 + r.below(c0); let dl0 = 1 + r.below(40);
+            let desc = format!("{{\"tua\": \"{} x Scalar({})\", \"last_np_segment\": {}, \"deadline\": {}, \"others\": {:?}, \"deadlines\": {:?}, \"limit\": {}, \"blocking\": {}}}", d0, c0, last, dl0, descs, dls, limit, b);
+            macro_rules! total2 { ($name:expr, $e:expr) => {{
+                if let Err(e) = guarded(|| { let _ = $e; }) { return fail($name, desc.clone(), e, "Ok(..) or Err(..) without panicking".into()); }
+            }}}
+            total2!("totality::fp::fully_nonpreemptive", fixed_priority::fully_nonpreemptive::dedicated_uniproc_rta(&fixed_priority::fully_nonpreemptive::TaskUnderAnalysis { wcet: Scalar::new(s(c0)), arrivals: &*ab0, blocking_bound: s(b) }, &rbfs, d(limit)));
+            total2!("totality::fp::limited_preemptive", fixed_priority::limited_preemptive::dedicated_uniproc_rta(&fixed_priority::limited_preemptive::TaskUnderAnalysis { wcet: Scalar::new(s(c0)), arrivals: &*ab0, last_np_segment: s(last), blocking_bound: s(b) }, &rbfs, d(limit)));
+            let lp: Vec<_> = rbfs.iter().zip(dls.iter()).map(|(rb, dl)| edf::limited_preemptive::InterferingTask { rbf: rb, deadline: d(*dl), max_np_segment: s(1 + r.below(3)) }).collect();
+            total2!("totality::edf::limited_preemptive", edf::limited_preemptive::dedicated_uniproc_rta(&edf::limited_preemptive::TaskUnderAnalysis { wcet: Scalar::new(s(c0)), arrivals: &*ab0, deadline: d(dl0), last_np_segment: s(last) }, &lp, d(limit)));
+            let np_abs: Vec<(Box<dyn ArrivalBound>, String)> = (0..n).map(|_| mk_ab(&mut r)).collect();
+            let np_others: Vec<_> = np_abs.iter().zip(dls.iter()).map(|(a, dl)| edf::fully_nonpreemptive::Task { wcet: Scalar::new(s(1 + (*dl % 3))), arrivals: &*a.0, deadline: d(*dl) }).collect();
+            total2!("totality::edf::fully_nonpreemptive", edf::fully_nonpreemptive::dedicated_uniproc_rta(&edf::fully_nonpreemptive::Task { wcet: Scalar::new(s(c0)), arrivals: &*ab0, deadline: d(dl0) }, &np_others, d(limit)));
+        }
+        // rr / bw over boxed models
+        let abs: Vec<(Box<dyn ArrivalBound>, String)> = (0..n).map(|_| mk_ab(&mut r)).collect();
+        let cms: Vec<(Box<dyn JobCostModel>, String)> = (0..n).map(|_| mk_cm(&mut r)).collect();
+        let kinds: Vec<Cb> = (0..n).map(|_| Cb { t: 1, j: 0, c: 1, rtb: r.below(15), kind: r.below(4) as u8, prio: r.below(3) as i32 }).collect();
+        let e = r.below(n as u64) as usize;
+        let desc = format!("{{\"callbacks\": {:?}, \"kinds(rtb,kind,prio)\": {:?}, \"end_of_chain\": {}, \"limit\": {}, \"supply\": {}}}", abs.iter().zip(cms.iter()).map(|(a, c)| format!("{} x {}", a.1, c.1)).collect::<Vec<_>>(), kinds.iter().map(|k| (k.rtb, k.kind, k.prio)).collect::<Vec<_>>(), e, limit, sdesc);
+        {
+            let wl: Vec<_> = (0..n).map(|i| ros2::rr::Callback::new(d(kinds[i].rtb), &abs[i].0, &cms[i].0, ros2_kind(&kinds[i]))).collect();
+            let sc = vec![&wl[e]];
+            if let Err(x) = guarded(|| { let _ = ros2::rr::rta_subchain(&*sb, &wl, &sc, d(limit)); }) { return fail("totality::ros2::rr", desc.clone(), x, "Ok(..) or Err(..) without panicking".into()); }
+        }
+        {
+            let wl: Vec<_> = (0..n).map(|i| ros2::bw::Callback::new(d(kinds[i].rtb), &abs[i].0, &cms[i].0, ros2_kind(&kinds[i]))).collect();
+            let sc = vec![&wl[e]];
+            if let Err(x) = guarded(|| { let _ = ros2::bw::rta_subchain(&*sb, &wl, &sc, d(limit)); }) { return fail("totality::ros2::bw", desc.clone(), x, "Ok(..) or Err(..) without panicking".into()); }
+        }
+    }
+    0
+}
+
 pub fn search(obligation: &str, seed: u64) -> i32 {
     let o = obligation;
     let mut ran = false;
@@ -1140,7 +1228,7 @@ pub fn search(obligation: &str, seed: u64) -> i32 {
     let mut rc = 0;
     if let Some(cat) = o.strip_prefix("cat:") {
         rc = match cat { "supply" => run(check_supply), "fixed_point" => run(check_fixed_point), "arrival" => run(check_arrival), "steps" => run(check_steps),
-                         "wcet_demand" => run(check_wcet_demand), "analyses" => { let rc = run(check_analyses); if rc == 0 { run(check_analyses_tab) } else { rc } }, "ros2" => { let rc = run(check_ros2); if rc == 0 { run(check_ros2_tab) } else { rc } }, "ros2_all_scalar" => run(check_ros2_all_scalar), "ros2_bw_all" => run(check_ros2_bw_all), "ros2_mono" => run(check_ros2_mono), "coincide" => run(check_coincide), "ros2_all_multiframe" => run(check_ros2_all_multiframe), _ => 3 };
+                         "wcet_demand" => run(check_wcet_demand), "analyses" => { let rc = run(check_analyses); if rc == 0 { run(check_analyses_tab) } else { rc } }, "ros2" => { let rc = run(check_ros2); if rc == 0 { run(check_ros2_tab) } else { rc } }, "ros2_all_scalar" => run(check_ros2_all_scalar), "ros2_bw_all" => run(check_ros2_bw_all), "ros2_mono" => run(check_ros2_mono), "coincide" => run(check_coincide), "totality" => run(check_totality), "ros2_all_multiframe" => run(check_ros2_all_multiframe), _ => 3 };
     }
     else if o.contains("src/arrival/steps") || o.contains("src/arrival/dmin") || o.contains("arrival_curve_prefix") { rc = run(check_steps); }
     else if o.contains("src/supply/") { rc = run(check_supply); if rc == 0 { rc = run(check_fixed_point); } }
